@@ -2,13 +2,23 @@
 import sys, json, logging, warnings
 
 
+_SHARED_PARSER = []
+
+
 def one_parse(req):
     from vpl import work
     from vpl.util import parse, LatexWalkerParseError
     from vpl.mon import canon
     ctx = work.ctx_for(req.get('ctx'))
+    parser = None
+    if req.get('shared_parser'):
+        # "whatever ... parser objects": one parser object serves every parse of the process
+        if not _SHARED_PARSER:
+            from pylatexenc.latexnodes.parsers import LatexGeneralNodesParser
+            _SHARED_PARSER.append(LatexGeneralNodesParser())
+        parser = _SHARED_PARSER[0]
     try:
-        nl = parse(req['s'], ctx=ctx, tolerant=req['tolerant'])
+        nl = parse(req['s'], ctx=ctx, tolerant=req['tolerant'], parser=parser)
     except LatexWalkerParseError as e:
         return {'outcome': 'parse_error', 'pos': getattr(e, 'pos', None), 'msg': str(getattr(e, 'msg', ''))[:120]}
     except Exception as e:
